@@ -55,6 +55,7 @@ import itertools
 import operator
 import os
 import random
+import signal
 import symtable
 import sys
 import traceback
@@ -214,7 +215,8 @@ class Truthful(type_inference.Resolver):
     for combo in itertools.product(*sets):
       rr = [reps(t) for t in combo]
       if any(r is None for r in rr):
-        return None
+        out.add(typing.Any)             # Any / a class without representatives: anything may come out
+        continue
       for vals in itertools.product(*rr):
         try:
           out.add(stype(fn(*vals)))
@@ -229,6 +231,8 @@ class Truthful(type_inference.Resolver):
     return self._apply(op, left, right) if op else None
 
   def res_unop(self, ns, types_ns, node, opnd):
+    if isinstance(node.op, ast.Not):
+      return {bool}
     op = UNOPS.get(type(node.op))
     return self._apply(op, opnd) if op else None
 
@@ -244,7 +248,9 @@ class Truthful(type_inference.Resolver):
   def res_slice(self, ns, types_ns, node_or_slice, value, slice_):
     out = set()
     for t in value:
-      if t is str:
+      if t is typing.Any:
+        out.add(typing.Any)
+      elif t is str:
         if isinstance(node_or_slice, int) or slice_ == {int}:
           out.add(str)
         else:
@@ -296,7 +302,7 @@ def resolver_selfcheck():
           bad.append('%s %s %s -> %r not in %r' % (lt, opn.__name__, rt, stype(v), decl))
   for opn, op in UNOPS.items():
     for lt in alt:
-      decl = r._apply(op, {lt})
+      decl = r.res_unop(None, None, ast.UnaryOp(op=opn(), operand=None), {lt})
       for lv in alt[lt]:
         try:
           v = op(lv)
@@ -435,6 +441,15 @@ class Instrument(ast.NodeTransformer):
     return node
 
 
+class _Timeout(BaseException):
+  pass
+
+
+def _on_alarm(signum, frame):
+  raise _Timeout()
+
+
+ANALYSIS_TIMEOUT = 20
 INPUTS = [(3, 's'), (2.5, 'tt')]
 ARG_TYPES = {'a': {int, float}, 'b': {str}}
 
@@ -448,7 +463,16 @@ def check_one(src, inputs=INPUTS, arg_types=ARG_TYPES, max_len=6, cap=20):
     res.update(status='fail', failure=dict(kind='generator-bug', sig='syntax', what=str(e)))
     return res
   try:
-    node = analyze(src, arg_types, World([]).ns())
+    signal.signal(signal.SIGALRM, _on_alarm)
+    signal.setitimer(signal.ITIMER_REAL, ANALYSIS_TIMEOUT)
+    try:
+      node = analyze(src, arg_types, World([]).ns())
+    finally:
+      signal.setitimer(signal.ITIMER_REAL, 0)
+  except _Timeout:
+    res.update(status='fail', failure=dict(kind='analysis-does-not-terminate', sig='timeout',
+                                           what='type inference did not reach a fixed point within %d s' % ANALYSIS_TIMEOUT))
+    return res
   except Exception as e:
     res.update(status='crash', failure=dict(kind='analysis-crash', sig=type(e).__name__,
                                             what='%s: %s' % (type(e).__name__, str(e)[:200])))
@@ -546,10 +570,12 @@ class Env(object):
     self.num, self.ints, self.strs, self.mix, self.unk, self.fns = num, ints, strs, mix, unk, fns
     self.store_num, self.store_mix = store_num, store_mix
     self.in_local = in_local
+    self.closed = False            # True: expressions may not read captured variables (tp, xs, ...)
 
   def child(self, **kw):
     e = Env(list(self.num), list(self.ints), list(self.strs), list(self.mix), list(self.unk), list(self.fns),
             list(self.store_num), list(self.store_mix), self.in_local)
+    e.closed = self.closed
     for k, v in kw.items():
       setattr(e, k, v)
     return e
@@ -574,7 +600,7 @@ class TGen(object):
       return '(%s %s %s)' % (self.intx(d - 1, env), rnd.choice(['+', '-', '*']), self.intx(d - 1, env))
     if r < 0.6:
       return 'ext_int(%s)' % self.mixx(d - 1, env)
-    if r < 0.68:
+    if r < 0.68 and not env.closed:
       return 'len(xs)'
     if r < 0.76:
       return '(-%s)' % self.intx(d - 1, env)
@@ -583,7 +609,7 @@ class TGen(object):
     fs = [f for f in env.fns if f[2] == 'int']
     if fs:
       return self.call_local(rnd.choice(fs), d, env)
-    return rnd.choice(env.ints)
+    return rnd.choice(env.ints + ["2"])
 
   def numx(self, d, env):
     rnd = self.rnd
@@ -617,18 +643,19 @@ class TGen(object):
       return '(%s * 2)' % self.strx(d - 1, env)
     if r < 0.8:
       return 'ext_str(%s)' % self.mixx(d - 1, env)
-    if r < 0.9:
+    if r < 0.9 and env.strs:
       return '%s[0]' % rnd.choice(env.strs)
     fs = [f for f in env.fns if f[2] == 'str']
     if fs:
       return self.call_local(rnd.choice(fs), d, env)
-    return rnd.choice(env.strs)
+    return rnd.choice(env.strs + ["'v'"])
 
   def mixx(self, d, env):
     rnd = self.rnd
     r = rnd.random()
     if d <= 0 or r < 0.22:
-      return rnd.choice(env.mix + env.mix + env.num + env.strs + ['tp', 'xs', '1', "'c'", '2.0', 'True'])
+      return rnd.choice(env.mix + env.mix + env.num + env.strs + ([] if env.closed else ['tp', 'xs'])
+                        + ['1', "'c'", '2.0', 'True'])
     if r < 0.36:
       return self.numx(d, env)
     if r < 0.46:
@@ -641,17 +668,17 @@ class TGen(object):
       return 'ext_pick(%s)' % self.mixx(d - 1, env)
     if r < 0.76:
       return 'ext_same(%s)' % self.mixx(d - 1, env)
-    if r < 0.82:
+    if r < 0.82 and not env.closed:
       return 'tp[%d]' % rnd.randint(0, 1)
     if r < 0.87:
       return '(%s == %s)' % (self.mixx(d - 1, env), self.mixx(d - 1, env))
-    if r < 0.91:
+    if r < 0.91 and env.mix:
       return '(%s != %s)' % (rnd.choice(env.mix), self.flatx(d - 1, env))
     if r < 0.94:
       return 'ext_pair(%s)' % self.mixx(d - 1, env)
     if env.fns:
       return self.call_local(rnd.choice(env.fns), d, env)
-    return rnd.choice(env.mix)
+    return rnd.choice(env.mix + ['3'])
 
   def flatx(self, d, env):
     """never tuple-typed: tuple displays are built from these only (a tuple inside a tuple re-assigned in a loop
@@ -847,11 +874,16 @@ class TGen(object):
         body.append('%s%s = %s' % (ind2, loc, self.unkx(2, e)))
         e.unk = e.unk + [loc]
       elif r < 0.85:
-        loc2 = 'l_%d' % self.U()
+        # a join inside the local function.  Both sides must have a KNOWN type (T5), and a captured variable is
+        # not reliably known here (never-called function, name declared nonlocal further out): parameters,
+        # literals and helper calls only
+        ec = Env(num=[], ints=[n for n, s_ in zip(pn, shape) if s_ == 'int'], strs=[], mix=[], unk=[], fns=[],
+                 store_num=[], store_mix=[], in_local=level)
+        ec.closed = True
         body.append('%sif c():' % ind2)
-        body.append('%s  %s = %s' % (ind2, loc, self.mixx(1, e)))
+        body.append('%s  %s = %s' % (ind2, loc, self.mixx(2, ec)))
         body.append('%selse:' % ind2)
-        body.append('%s  %s = %s' % (ind2, loc, self.mixx(1, e)))
+        body.append('%s  %s = %s' % (ind2, loc, self.mixx(2, ec)))
         e.mix = e.mix + [loc]
       elif level == 1:
         lines, fn = self.local_def(ind2, e)
@@ -1028,7 +1060,7 @@ def main():
   ap.add_argument('--no-witnesses', action='store_true')
   ap.add_argument('--maxfail', type=int, default=10)
   a = ap.parse_args()
-  n = a.n if a.n is not None else (40000 if a.tier == 'thorough' else 2500)
+  n = a.n if a.n is not None else (150000 if a.tier == 'thorough' else 8000)
   bad = resolver_selfcheck()
   failures = [dict(kind='harness-error', sig='resolver-untruthful', what=b, program=None) for b in bad[:3]]
   items = [(i, a.seed * 1000003 + i, 1 + (i % 5)) for i in range(n)]
